@@ -32,6 +32,8 @@ type fqOpts struct {
 	// Extra lets a harness add tasks (interrupter, canceller) before the run starts.
 	Extra func(sim *simrt.Sim)
 	Trace bool
+	// Fine keeps the statement-level yields of the instrumented packages
+	Fine bool
 }
 
 // runFQ executes fq (interp.New, Main, Stop) as task "fq" in a fresh simulation.
@@ -41,6 +43,7 @@ func runFQ(t *simrt.Tape, o *simos.OS, opt fqOpts) *fqRun {
 	}
 	sim := simrt.New(t, opt.Policy, opt.Budget)
 	defer sim.Close()
+	sim.Coarse = !opt.Fine
 	// fixed order: knob names sorted by the caller's construction
 	for _, k := range []string{"cacheReadAheadSize", "progressPrecision"} {
 		if v, ok := opt.Knobs[k]; ok {
